@@ -457,7 +457,7 @@ Anom(c) == B2N(c.kind # "none") + B2N(c.fy # NF) + B2N(c.fk # "none") + B2N(c.rs
 
 Init ==
   /\ \E s \in 0..MaxStart, n \in 1..MaxLen, bs \in 1..MaxBatch, hB \in 0..MaxStoreH :
-     \E hF \in {hB, hB - 1, hB - 2, hB + 1} \cap (0..MaxH) :
+     \E hF \in {hB, hB - 1, hB - 2, hB - 3, hB + 1} \cap (0..MaxH) :
      \E kind \in Kinds, fk \in FKinds :
      \E x \in (IF kind = "none" THEN {NF} ELSE s..(s + n - 1)),
         fy \in {NF} \cup (s..(s + n - 1)),
